@@ -228,6 +228,7 @@ func jobMap(j *jobCtx) {
 				}
 			}
 		}
+		bigMap(j, k, j.r)
 	}
 }
 
@@ -258,6 +259,8 @@ func jobSeq(j *jobCtx) {
 			n = 400
 		}
 		randomRun(&seqRandom{kind: k, nval: 5}, j.r, n, 120)
+		// (4) large structured histories
+		bigSeq(j, k)
 	}
 }
 
@@ -299,6 +302,15 @@ func jobQue(j *jobCtx) {
 		for _, c := range rcaps {
 			randomRun(&queRandom{kind: k, cap: c}, j.r, n, 150)
 		}
+		if k == "circularbuffer" {
+			// every (start, end, full) index state of larger rings (one value: the state space is the index arithmetic)
+			for _, c := range []int{9, 12, 17} {
+				s, e := tour(&queUniverse{kind: k, cap: c, maxLen: c, nval: 1}, j.maxStates())
+				j.states += s
+				j.edges += e
+			}
+		}
+		bigQue(j, k)
 	}
 }
 
@@ -336,6 +348,7 @@ func jobSet(j *jobCtx) {
 				break
 			}
 		}
+		bigSet(j, k)
 	}
 }
 
@@ -361,5 +374,6 @@ func jobHeap(j *jobCtx) {
 			}
 			randomRun(&heapRandom{kind: k, cmp: cmp, np: 4}, j.r, n, 150)
 		}
+		bigHeap(j, k)
 	}
 }
